@@ -55,28 +55,36 @@ func LoadWorld(repo string, overlay map[string][]byte, extraEnv []string) (*Worl
 	// rename tolerance (roles.go): unexported anchors missing under their canonical names are located by role
 	// and renamed back in an in-memory overlay; the rules then run on the canonically named program.
 	cur := overlay
-	for iter := 0; iter < 3; iter++ {
-		rc := discoverRoles(w)
-		if len(rc.renames) == 0 {
-			break
+	applyRoles := func() {
+		for iter := 0; iter < 3; iter++ {
+			rc := discoverRoles(w)
+			if len(rc.renames) == 0 {
+				break
+			}
+			sort.Strings(rc.notes)
+			ov, err := rc.renameOverlay(cur)
+			if err != nil {
+				w.Notes = append(w.Notes, rc.notes...)
+				w.Notes = append(w.Notes, "canonical renaming not applied: "+err.Error())
+				break
+			}
+			w2, err := loadWorldRaw(repo, ov, extraEnv)
+			if err != nil {
+				w.Notes = append(w.Notes, rc.notes...)
+				w.Notes = append(w.Notes, "canonical renaming not applied: the renamed program does not load: "+err.Error())
+				break
+			}
+			w2.Notes = append(w.Notes, rc.notes...)
+			w, cur = w2, ov
 		}
-		sort.Strings(rc.notes)
-		ov, err := rc.renameOverlay(cur)
-		if err != nil {
-			w.Notes = append(w.Notes, rc.notes...)
-			w.Notes = append(w.Notes, "canonical renaming not applied: "+err.Error())
-			break
-		}
-		w2, err := loadWorldRaw(repo, ov, extraEnv)
-		if err != nil {
-			w.Notes = append(w.Notes, rc.notes...)
-			w.Notes = append(w.Notes, "canonical renaming not applied: the renamed program does not load: "+err.Error())
-			break
-		}
-		w2.Notes = append(w.Notes, rc.notes...)
-		w, cur = w2, ov
 	}
+	applyRoles()
 	// helper normalisation (inline.go): functions that are not in the reference table are inlined into their callers
+	// field groups (flatten.go): fields of a reference struct that were moved into a new sub-struct are read in place
+	if fw, fov := flattenGroups(w, repo, cur, extraEnv); fw != w {
+		w, cur = fw, fov
+		applyRoles() // the fields that surfaced may be renamed ones
+	}
 	nw, ov := normaliseHelpers(w, repo, cur, extraEnv)
 	// scalar replacement (scalarise.go): local variables of struct types that are not in the reference table
 	nw = scalariseLocals(nw, repo, ov, extraEnv)
